@@ -1021,6 +1021,9 @@ def run(prog, rep, tier):
     rep.rule('VALUE-dead', 'no result of a call is bound to a local that is never read (reaching '
              'definitions)')
     check_dead_computations(prog, rep, ['tenpy/tools/cache.py', 'tenpy/tools/thread.py', 'tenpy/tools/events.py'])
+    from ..flow import check_undefined_attrs
+    rep.rule('ATTR-defined', 'every self.X read names an attribute bound somewhere in the class family')
+    check_undefined_attrs(prog, rep, ['tenpy/tools/cache.py', 'tenpy/tools/thread.py', 'tenpy/tools/events.py'])
     return rep.finish(
         level='other',
         explanation='Structural necessary conditions of C20 decided on the current source of '
